@@ -76,6 +76,10 @@ def gen_cases(rng, tier):
     else:
       S = []
     route = "cli" if i % 15 == 7 else rng.choice(["api", "main"])
+    if S and i % 4 == 2:
+      # a label given twice (or three times) means what it means once
+      S = S + [rng.choice(S)] + ([S[0]] if i % 8 == 2 else [])
+      rng.shuffle(S)
     cases.append({"kind": "diff", "model": m, "S": S, "exclude": rng.random() < 0.5, "route": route, "set_class": cls,
                   "style": (rng.randrange(1, 1 << 30) if i % 2 else 0)})
   nv = 40 if tier == "quick" else 500
@@ -85,6 +89,8 @@ def gen_cases(rng, tier):
     views = []
     for k in range(rng.randint(2, 5)):
       v = {"S": rng.sample(sp, rng.randint(1, len(sp))), "exclude": rng.random() < 0.5}
+      if rng.random() < 0.3:
+        v["S"] = v["S"] + [rng.choice(v["S"])]
       if k and rng.random() < 0.4:
         v["parent"] = rng.randrange(k)     # a view of a view: the inner view stands in for the file
       views.append(v)
@@ -160,6 +166,8 @@ def run_diff(case, ctx):
   ctx.cls("route:" + route)
   ctx.cls("target:" + m["target"])
   ctx.cls("set:" + case["set_class"])
+  if len(set(S)) < len(S):
+    ctx.cls("species_list_with_repeated_label")
   ctx.cls("mode:" + ("exclude" if exclude else "include"))
   edited, removed, kept = edit_model(m, S, exclude)
   # the file handed to the filter is written the way people write files (white space - also form feed / vertical tab -
